@@ -9,6 +9,7 @@ import DisjointImpls.Key
 import DisjointImpls.Bounds
 import DisjointImpls.Validate
 import DisjointImpls.Canon
+import DisjointImpls.CanonWF
 import DisjointImpls.Group
 import DisjointImpls.Expand
 import DisjointImpls.ExpandOK
@@ -163,6 +164,9 @@ def handle (cmd : String) (args : List Sx) : Sx :=
       let s := indexImpl item
       let pr := fun (m : List (String × Nat)) => Sx.list (m.map (fun (x, i) => .list [.str x, .sym (toString i)]))
       .list [.sym "canon", (canon item).toSx, pr s.ixLt, pr s.ixTy, pr s.ixCo, boolSx (canon (canon item) == canon item)]
+  | "canonwf", [item] =>
+      -- the hypothesis of `C13_canon_idem` (CanonWF.lean) and the conclusion, both evaluated on the item
+      .list [.sym "canonwf", boolSx (canonWF item), boolSx (canon (canon item) == canon item)]
   | "bounds", [item] =>
       let g := (implGenerics item).getD (.node "?" [] [])
       .list ((findBounds g).map (fun b => .list [b.bounded.toSx, b.tr.toSx,
